@@ -18,9 +18,17 @@ from .cli import run_check
 REPO = os.environ.get("TPSA_REPO", "/repo")
 
 
-def make_copy(edits: List[Tuple[str, str, str]]) -> str:
+def make_copy(edits: List[Tuple[str, str, str]], base: str = "") -> str:
     tmp = tempfile.mkdtemp(prefix="tpsa-selftest-")
     shutil.copytree(os.path.join(REPO, "src"), os.path.join(tmp, "src"), ignore=shutil.ignore_patterns("__pycache__", "*.egg-info"))
+    if base:
+        # the variant edits a kept behaviour-preserving refactoring (preserving/<base>/patch.diff), not the pinned tree
+        import subprocess
+        patch = os.path.join(os.path.dirname(os.path.dirname(os.path.abspath(__file__))), "preserving", base, "patch.diff")
+        r = subprocess.run(["git", "apply", patch], cwd=tmp, capture_output=True, text=True)
+        if r.returncode != 0:
+            shutil.rmtree(tmp, ignore_errors=True)
+            raise ValueError(f"base patch {base} does not apply: {r.stderr[:200]}")
     for rel, old, new in edits:
         p = os.path.join(tmp, "src", "asyncio_taskpool", rel)
         s = open(p, encoding="utf-8").read()
@@ -34,7 +42,7 @@ def make_copy(edits: List[Tuple[str, str, str]]) -> str:
 
 def run_variant(v: Dict) -> Dict:
     try:
-        tmp = make_copy(v["edits"])
+        tmp = make_copy(v["edits"], v.get("base", ""))
     except Exception as e:
         return {"name": v["name"], "error": f"{type(e).__name__}: {e}"}
     res = {}
